@@ -12,13 +12,13 @@ from ..publicops import canon_label, cv
 PID = "C16"
 MODULES = ["GroupbyVerif.Props.C16"]
 RULE = ("seeded random datasets (1-2 keys incl. null keys and unused categories, <= 16 rows, boolean/no mask) x {var, std (ddof 0/1) on small integers "
-        "(exact rational oracle) and on floats with arbitrary offsets 0..1e8 and scales 1e-3..1e3 (error bound 16*n*eps*max|x|^2), median, quantile lists, "
+        "(exact rational oracle), on int32/int64 values up to 7e8 in magnitude (group sums whose square leaves int64) and on floats with arbitrary offsets 0..1e8 and scales 1e-3..1e3 (error bound 16*n*eps*max|x|^2), median, quantile lists, "
         "apply with user functions returning a scalar / a fixed-length vector / an input-aligned vector, agg with a list of functions, ratio, subset_ratio, "
         "density (values and sizes, with and without margins)}; oracles: two-pass Fraction arithmetic, NumPy median/quantile on each group's selected values "
         "in row order, the individual primitive calls; non-trivial = >= 2 groups, one with >= 3 values; distinct = distinct (dataset, op, parameters)")
 ASSUMPTIONS = ["np.median / np.quantile are the reference for quantiles (library calls them per group)",
                "the rounding bound constant 16 is a stated allowance, not derived (partial)"]
-OPS = ["var", "std", "var_float", "median", "quantile", "apply_scalar", "apply_fixed", "apply_aligned", "agg_list", "ratio", "subset_ratio", "density", "density_size"]
+OPS = ["var", "std", "var_float", "var_int", "median", "quantile", "apply_scalar", "apply_fixed", "apply_aligned", "agg_list", "ratio", "subset_ratio", "density", "density_size"]
 EPS = 2.0 ** -52
 
 
@@ -46,6 +46,11 @@ def gen_cases(tier, rng):
         case = {**ds, "op": op, "ddof": rng.choice([0, 1]), "q": rng.choice([[0.5], [0.25, 0.75], [0.0, 0.3, 1.0]]),
                 "ncols": rng.choice([1, 1, 2]), "offset": rng.choice([0, 1, 1e3, 1e6, 1e8]), "scale": rng.choice([1e-3, 1, 1e3]),
                 "noise": [rng.random() for _ in range(len(ds["vals"]))], "margins": rng.random() < 0.4}
+        if op == "var_int":
+            # integers whose per-group sums exceed 2**31.5 (their square leaves int64) while the sum of squares still fits
+            sgn = rng.choice([1, -1])
+            case["big"] = [sgn * (5 * 10 ** 8 + rng.randrange(0, 2 * 10 ** 8)) if rng.random() < 0.9 else rng.randrange(-1000, 1000) for _ in range(len(ds["vals"]))]
+            case["idt"] = rng.choice(["int64", "int32"])
         if op in ("ratio", "density"):
             case["vals"] = [None if v is None else abs(v) + 1 for v in case["vals"]]
         yield case
@@ -83,6 +88,8 @@ def evaluate(case, drv):
     keys = build_keys(case)
     if op == "var_float":
         vals = np.array([np.nan if v is None else case["offset"] + case["scale"] * (v + z) for v, z in zip(case["vals"], case["noise"])], dtype=np.float64)
+    elif op == "var_int":
+        vals = np.array(case["big"], dtype=case["idt"])
     else:
         vals = np.array([np.nan if v is None else v for v in case["vals"]], dtype=np.float64)
     mask = None if case["mask"] is None else np.array(case["mask"][1], dtype=bool)
@@ -98,12 +105,12 @@ def evaluate(case, drv):
 
     try:
         gb = GroupBy(keys)
-        if op in ("var", "std", "var_float"):
+        if op in ("var", "std", "var_float", "var_int"):
             got = as_map(gb.var(vals, mask=mask, ddof=case["ddof"]) if op != "std" else gb.std(vals, mask=mask, ddof=case["ddof"]))
             if set(got) != set(groups):
                 return bad(sorted(groups), sorted(got))
             for lab, rows in groups.items():
-                xs = [Fraction(float(vals[i])) for i in rows if not math.isnan(vals[i])]
+                xs = [Fraction(int(vals[i])) if op == "var_int" else Fraction(float(vals[i])) for i in rows if op == "var_int" or not math.isnan(vals[i])]
                 m = len(xs)
                 g = got[lab]
                 if m - case["ddof"] <= 0:
@@ -113,7 +120,7 @@ def evaluate(case, drv):
                 mean = sum(xs) / m
                 var = sum((x - mean) ** 2 for x in xs) / (m - case["ddof"])
                 exp = float(var) if op != "std" else math.sqrt(var)
-                if op == "var_float":
+                if op in ("var_float", "var_int"):
                     bound = 16 * m * EPS * max(abs(float(x)) for x in xs) ** 2 / max(m - case["ddof"], 1)
                     if not abs(g - exp) <= bound + 1e-300:
                         return bad(f"{lab}: {exp} +- {bound:.3g}", g, error=abs(g - exp))
